@@ -81,13 +81,17 @@ func (round *round3) Start() *tss.Error {
 			}
 
 			PjVs, err := crypto.UnFlattenECPoints(round.Params().EC(), flatPolyGs)
-			for i, PjV := range PjVs {
-				PjVs[i] = PjV.EightInvEight()
-			}
-
 			if err != nil {
 				ch <- vssOut{err, nil}
 				return
+			}
+			// PjVs[0] is used below: a de-commitment that opens to no (or too few) points must not be indexed
+			if len(PjVs) != round.Threshold()+1 {
+				ch <- vssOut{errors.New("de-commitment has the wrong number of points"), nil}
+				return
+			}
+			for i, PjV := range PjVs {
+				PjVs[i] = PjV.EightInvEight()
 			}
 			proof, err := r2msg2.UnmarshalZKProof(round.Params().EC())
 			if err != nil {
